@@ -100,6 +100,7 @@ type TxJSON struct {
 	Gas       uint64 `json:"gas"`
 	GasLocked uint64 `json:"gas_locked,omitempty"`
 	CallType  int    `json:"call_type,omitempty"`
+	ReturnErr bool   `json:"return_err,omitempty"`
 	// how Data was produced with the repository's tx-data builder: function, hex arguments and the
 	// builder method used per argument (replayed and checked by Apply, C12)
 	Fn   string   `json:"fn,omitempty"`
@@ -182,6 +183,8 @@ type World struct {
 	parser       vmcommon.ESDTTransferParser
 	// toConsume: outputs of this event's successful calls, used up by their owner at the end of the event
 	toConsume []*vmcommon.VMOutput
+	// held: message bytes of earlier outputs still referenced by their receiver
+	held []retained
 	// toReuse: executions of this event whose input buffers their owner reuses at the end of the event
 	toReuse []*Exec
 	// options
@@ -469,10 +472,13 @@ func Rebuild(fn string, args [][]byte, ops []string) string {
 	for i := len(args); i < len(ops); i++ {
 		extra[ops[i]] = true
 	}
+	var kept []byte
+	const keptWant = "old@6a756e6b@07"
 	if extra["reuse"] {
-		// a builder that was used before and cleared
+		// a builder that was used before and cleared; what it produced then is still held by its user
 		b.Func("old").Str("junk").Int(7)
 		_ = b.ToString()
+		kept = b.ToBytes()
 		b.Clear()
 	}
 	b.Func(fn)
@@ -527,6 +533,15 @@ func Rebuild(fn string, args [][]byte, ops []string) string {
 			}
 		case "str":
 			b.Str(string(a))
+		case "setfirst":
+			// (first argument only) the data is read while there is no argument yet, then SetLast,
+			// which the builder supports on an empty list, supplies the one argument
+			if i != 0 {
+				b.Bytes(a)
+				break
+			}
+			_ = b.ToString()
+			b.SetLast(hex.EncodeToString(a))
 		case "setlast":
 			// a placeholder is appended, the data is read once, then the last element is set
 			b.Bytes([]byte{0xee})
@@ -540,8 +555,15 @@ func Rebuild(fn string, args [][]byte, ops []string) string {
 		}
 	}
 	out := b.ToString()
-	if string(b.ToBytes()) != out {
+	first := b.ToBytes()
+	if string(first) != out {
 		return "ToBytes disagrees with ToString"
+	}
+	if string(b.ToBytes()) != out || string(first) != out {
+		return "a second ToBytes changed the result or the bytes returned by the first"
+	}
+	if kept != nil && string(kept) != keptWant {
+		return fmt.Sprintf("the bytes an earlier ToBytes returned (%q) were changed by later use of the builder: %q", keptWant, kept)
 	}
 	return out
 }
